@@ -1,6 +1,6 @@
 """C08 — annotate changes nothing but the header.
 
-Streams: the model (`annotate` op = Model.annotateText) against the real `add_header_to_file` / `find_and_replace_header` /
+Streams: the model (`annotate` op = Model.annotateFile) against the real `add_header_to_file` / `find_and_replace_header` /
 `add_new_header` / the `reuse annotate` command line, each judged by `judge` below — an oracle written from the property text
 alone (it knows the comment markers of the style and what was requested, nothing about how the tool splits the text).
 """
@@ -199,7 +199,10 @@ def attach_bad(cases):
     for c in cases:
         texts.append(c["t"])
         texts.append(norm_breaks(c["t"]))
-    bad = unparseable(licence_values(texts)) if cases else []
+    try:
+        bad = unparseable(licence_values(texts)) if cases else []
+    except Exception:          # no driver (it did not build): the model is not compared anyway
+        bad = []
     for c in cases:
         c["bad"] = bad
     return cases
@@ -284,7 +287,7 @@ class BodiesStream(C08Stream):
     rule = ("add_header_to_file on scratch files, bytes in / bytes out: every style of the table x {replace, --no-replace} x {single, forced "
             "multi-line where supported} x bodies from the grammar (byte order mark, shebang / first-line declaration, existing own-style "
             "header at the top / in the middle / at the end / absent, own and foreign comments, indented and blank-line runs, LF / CRLF / CR, "
-            "with and without final newline) plus 19 fixed corner bodies; model = Model.annotateText; oracle = line comparison written from "
+            "with and without final newline) plus 19 fixed corner bodies; model = Model.annotateFile; oracle = line comparison written from "
             "the property text; non-trivial = distinct (style, written bytes)")
 
     def cases(self, tier, rng):
